@@ -1341,8 +1341,9 @@ func (client *client) readHandle() {
 				err = codes.ErrProtocol
 				return
 			}
-			if !bytes.Equal(client.opts.AuthMethod, auth.Properties.AuthData) {
-				codeErr = codes.ErrProtocol
+			// the Authentication Method of a re-authentication must be the one used at CONNECT [MQTT-4.12.1-1]
+			if !bytes.Equal(client.opts.AuthMethod, auth.Properties.AuthMethod) {
+				err = codes.ErrProtocol
 				return
 			}
 			codeErr = client.reAuthHandler(auth)
